@@ -670,6 +670,39 @@ def rule_randint(ctx):
         rr.ok('every value %s returns is integral by construction (%s)' % (
             f.qualname, '; '.join(norm_src(st.value) for st, _ in verdicts)),
             '%s:%d' % (f.module.rel, f.lineno))
+    # the empty-range guard must test the bounds the draw uses: if a bound is
+    # re-assigned (rounded) after the guard, the guard judged other values
+    if len(f.params) >= 2:
+        lo, hi = f.params[0], f.params[1]
+        guards = [st for st in f.node.body if isinstance(st, ast.If) and any(
+            isinstance(r_, ast.Return) and r_.value is not None and
+            'errors[' in norm_src(r_.value) for r_ in st.body) and
+            {lo, hi} <= names_in(st.test) | {
+                x for t_, v_, _s in assign_pairs(f)
+                if isinstance(t_, ast.Name) and t_.id in names_in(st.test)
+                for x in names_in(v_)}]
+        if guards:
+            rr.instances += 1
+            g = guards[-1]
+            later = [st for st in f.node.body if st.lineno > g.lineno and
+                     isinstance(st, (ast.Assign, ast.AugAssign)) and any(
+                         isinstance(x, ast.Name) and x.id in (lo, hi) and
+                         isinstance(x.ctx, ast.Store) for x in ast.walk(st))]
+            if later:
+                rr.fail(key_of(f, 'range guard tests the bounds before they '
+                                  'are rounded'),
+                        '%s rejects an empty range with `%s` and re-assigns a '
+                        'bound afterwards (`%s`): the guard judged the raw '
+                        'bounds, the draw uses the rounded ones, so for bounds '
+                        'with no integer between them the result lies outside '
+                        '[bottom, top]' % (f.qualname, norm_src(g.test),
+                                           norm_src(later[0])[:60]),
+                        file=f.module.rel, function=f.qualname,
+                        line=later[0].lineno)
+            else:
+                rr.ok('the empty-range guard `%s` tests the bounds the draw '
+                      'uses' % norm_src(g.test), '%s:%d' % (f.module.rel,
+                                                            g.lineno))
     # a half-open integer draw needs `top + 1` to make the upper bound attainable
     for n in own_nodes(f):
         if isinstance(n, ast.Call) and isinstance(n.func, (ast.Name,
